@@ -108,8 +108,13 @@ def observe_case(root: Path, case: Dict[str, Any]) -> Dict[str, Any]:
         except SyntaxError as e:
             irs[name] = {"syntax_error": f"{e.msg} (line {e.lineno})"}
     out["ir"] = irs
+    import warnings
+
+    caught: List[Any] = []
     try:
-        pkg = engine.import_package(gen)
+        with warnings.catch_warnings(record=True) as caught:
+            warnings.simplefilter("always")
+            pkg = engine.import_package(gen)
     except BaseException as e:  # noqa: BLE001
         import traceback
 
@@ -117,6 +122,16 @@ def observe_case(root: Path, case: Dict[str, Any]) -> Dict[str, Any]:
         out["where"] = traceback.format_exc()[-900:]
         return out
     out["import"] = "ok"
+    # pydantic's class construction warns when a field is called like an attribute of BaseModel: the attribute is gone
+    # only the names ariadne-codegen itself promises to escape (PYDANTIC_RESERVED_FIELD_NAMES) are judged; other shadowed
+    # attributes (a field called `mro`) are recorded as an observation
+    try:
+        from ariadne_codegen.client_generators.constants import PYDANTIC_RESERVED_FIELD_NAMES as _reserved
+    except (ImportError, AttributeError):
+        _reserved = ()
+    shadows = sorted({str(w.message)[:160] for w in caught if "shadows an attribute in parent" in str(w.message)})
+    out["shadow_warnings"] = [m for m in shadows if any(f'Field name "{n}"' in m for n in _reserved)]
+    out["other_shadow_warnings"] = [m for m in shadows if m not in out["shadow_warnings"]]
     incomplete: List[str] = []
     for f in sorted(sources):
         mod = f[:-3]
@@ -188,6 +203,9 @@ def judge(case: Dict[str, Any], status: str, r: Any) -> List[Tuple[str, str]]:
             out.append(("model-incomplete:other-module", ", ".join(other[:5])))
     if r["unresolved"]:
         out.append(("all-unresolved", ", ".join(r["unresolved"][:5])))
+    if r.get("shadow_warnings"):
+        # "imports cleanly": a generated field that replaces BaseModel.model_dump / copy / dict ... does not
+        out.append(("import-warning:field-shadows-basemodel-attribute", "; ".join(r["shadow_warnings"][:3])))
     return out
 
 
